@@ -70,3 +70,10 @@ Qed.
 
 Lemma impl_keys : impl_num_apis = 50 /\ impl_keys_contiguous = true /\ impl_unimplemented_skipped = true.
 Proof. repeat split. Qed.
+
+(* every array element of every layout takes at least one byte on the wire (the decoder sizes
+   arrays by the bytes left in the message) *)
+Require Import V.Kafka.KafkaSpecEnc.
+Lemma impl_arrays_ok :
+  forallb arrays_ok (table_types impl_req_tbl) = true /\ forallb arrays_ok (table_types impl_resp_tbl) = true.
+Proof. split; vm_compute; reflexivity. Qed.
